@@ -485,3 +485,7 @@ Proof.
   rewrite coset_ntt_total by (rewrite length_intt_pure; apply ring_elem_length; exact Ha).
   f_equal. apply ntt_intt_pure; exact Ha.
 Qed.
+
+(* from here on the transforms are used through the lemmas above only; keeping them opaque makes the
+   kernel unfold the small side of a conversion problem first *)
+Global Opaque ntt_pure intt_pure eval_at_roots.
